@@ -13,9 +13,9 @@ import vlib
 from vlib import Report, run_tlc, tlc_must_pass, extract_lines, write_ndjson, read_ndjson, xv_json, workdir
 
 PID = "C01"
-FRAGS = ["cond", "begin", "do", "def", "case", "mix", "late"]
-BUDGET = {"quick": {"cond": 4, "begin": 4, "do": 4, "def": 5, "case": 4, "mix": 4, "late": 4},
-          "thorough": {"cond": 5, "begin": 5, "do": 5, "def": 6, "case": 5, "mix": 5, "late": 5}}
+FRAGS = ["cond", "begin", "do", "def", "case", "mix", "late", "locloop"]
+BUDGET = {"quick": {"cond": 4, "begin": 4, "do": 4, "def": 5, "case": 4, "mix": 4, "late": 4, "locloop": 7},
+          "thorough": {"cond": 5, "begin": 5, "do": 5, "def": 6, "case": 5, "mix": 5, "late": 5, "locloop": 8}}
 
 RANDOM = {"quick": (1500, 40), "thorough": (25000, 50)}
 
